@@ -34,12 +34,15 @@ HAND = {
                                                           r"for \(k, v\) in self\.unknown\.iter\(\)\s*\{\s*e\.u64\(\*k\)\?;\s*e\.encode_with\(v, ctx\)\?;"]),
 }
 
+# types whose Show / Arb impls are written by hand in harness/src/fixtures/schema_traits.rs
+HAND_RUST = {("crate", "RationalNumber"), ("conway", "CostModels")}
+
 # leaf / wrapper types known by name (pallas-codec, pallas-crypto, minicbor, std)
 LEAF = {
     "u8": ".uint 8", "u16": ".uint 16", "u32": ".uint 32", "u64": ".uint 64",
     "i8": ".sint 8", "i16": ".sint 16", "i32": ".sint 32", "i64": ".sint 64",
     "bool": ".bool", "String": ".text", "Bytes": ".bytes", "ByteVec": ".bytes", "Int": ".int",
-    "PositiveCoin": ".uint 64", "NonZeroInt": ".nzint", "EmptyMap": ".emptyMap", "AnyCbor": ".any",
+    "PositiveCoin": ".posCoin", "NonZeroInt": ".nzint", "EmptyMap": ".emptyMap", "AnyCbor": ".any",
     "PlutusData": ".any",
 }
 WRAP1 = {"Vec": ".vec", "Option": ".opt", "KeepRaw": ".keepRaw", "Nullable": ".nullable", "Set": ".set",
@@ -329,6 +332,13 @@ class Translator:
         self.soft = []
         self.skipped = []
         self.rust_impls = []    # generated Rust text
+        self.rust_table = []
+        self.snap_used = set()
+        try:
+            import json
+            self.snapshot = json.load(open(os.path.join(os.path.dirname(os.path.abspath(__file__)), "derive_snapshot.json")))
+        except OSError:
+            self.snapshot = {"defs": {}}
         self.done_rust = set()
 
     # -- imports
@@ -461,7 +471,25 @@ class Translator:
         lname = self.lean_name(key)
         try:
             term, nr = self.translate_item(dmod, item, subst)
-        finally:
+        except Unknown as e:
+            # fail closed (the build breaks on `unknowns = []`), but keep a model: the schema this item had at the
+            # last complete translation (lib/derive_snapshot.json). The correspondence run then shows, on concrete
+            # values, where the changed codec departs from the last verified one.
+            self.progress.pop()
+            ent = self.snapshot["defs"].get(lname)
+            if ent is None or key in self.env:
+                raise
+            msg = f"{dmod}.{item.name}: {e} (model falls back to the pinned schema)"
+            if msg not in self.soft:
+                self.soft.append(msg)
+            self.use_snapshot(lname)
+            ref = (lname, ent["noraw"])
+            self.memo[key] = ref
+            return ref
+        except Exception:
+            self.progress.pop()
+            raise
+        else:
             self.progress.pop()
         if key in self.env:
             idx = self.env.index(key)
@@ -902,7 +930,8 @@ class Translator:
                        other_excl=other_excl)
 
     # -- driver
-    def run(self, claimed):
+    def root_items(self):
+        """(module, name, item, display name) of every codec type that gets a table / dispatch entry"""
         for mod, _ in FILES:
             for name, item in self.mods[mod].items():
                 disp = name if mod == "crate" else f"{mod}.{name}"
@@ -924,19 +953,149 @@ class Translator:
                         continue
                 if any(a.startswith("deprecated") for a in item.attrs):
                     continue
-                if item.kind != "type" and not any(self.derives(item)) and name not in self.hand_impl[mod] and name not in self.bytype[mod]:
+                if item.kind != "type" and not self.is_codec_item(mod, item):
                     continue        # not a codec type at all (e.g. babbage::VrfDerivation)
+                yield mod, name, item, disp
+
+    def is_codec_item(self, mod, item):
+        return any(self.derives(item)) or item.name in self.hand_impl[mod] or item.name in self.bytype[mod]
+
+    def gen_rust_all(self):
+        """Show / Arb impls and the dispatch table from the *type definitions* alone (declaration order), so that the
+        implementation side of the correspondence and its round-trip oracle keep running on every type even when a
+        codec can no longer be translated into a schema."""
+        for mod, _ in FILES:
+            for name, item in self.mods[mod].items():
+                if item.kind not in ("struct", "enum") or (mod, name) in HAND_RUST:
+                    continue
+                if not self.is_codec_item(mod, item) and not any(g[0] == "type" for g in item.generics):
+                    continue
                 try:
-                    ref, nr = self.instance(mod, item, [], [])
-                    rust = self.rust_path(mod, name) + ("<" + ", ".join("'_" if g[0] == "life" else "1" for g in item.generics) + ">" if item.generics else "")
-                    self.table.append((disp, ref, rust))
-                except Unknown as e:
-                    self.progress = []
-                    (self.unknowns if disp in claimed else self.skipped).append(f"{disp}: {e}")
-                except Exception as e:  # malformed source: fail closed
-                    self.progress = []
-                    (self.unknowns if disp in claimed else self.skipped).append(f"{disp}: {type(e).__name__} {e}")
+                    if item.kind == "struct":
+                        body = item.body
+                        named = body.startswith("{")
+                        if not (named or body.startswith("(")):
+                            continue
+                        fields = []
+                        for pos, part in enumerate(split_top(body[1:match_close(body, 0)])):
+                            if not part:
+                                continue
+                            _, rest = take_attrs(part)
+                            rest = re.sub(r"^pub(\([^)]*\))?\s+", "", rest)
+                            if named:
+                                fname, ty = rest.split(":", 1)
+                                fields.append((pos, fname.strip(), ty.strip()))
+                            else:
+                                fields.append((pos, str(pos), rest.strip()))
+                        if any(re.match(r"cbor\(.*\btransparent\b", a, re.S) for a in item.attrs) and len(fields) == 1:
+                            self.rust_transparent(mod, item, fields[0], named)
+                        else:
+                            self.rust_struct(mod, item, fields, named)
+                    else:
+                        variants = []
+                        for part in split_top(item.body[1:match_close(item.body, 0)]):
+                            if not part:
+                                continue
+                            _, rest = take_attrs(part)
+                            m = re.match(r"(\w+)\s*(.*)$", rest, re.S)
+                            vname, vbody = m.group(1), m.group(2).strip()
+                            if not vbody:
+                                variants.append((vname, None, []))
+                                continue
+                            vnamed = vbody.startswith("{")
+                            vf = []
+                            for pos, fp in enumerate(split_top(vbody[1:match_close(vbody, 0)])):
+                                if not fp:
+                                    continue
+                                _, r2 = take_attrs(fp)
+                                r2 = re.sub(r"^pub(\([^)]*\))?\s+", "", r2)
+                                if vnamed:
+                                    fname, ty = r2.split(":", 1)
+                                    vf.append((pos, fname.strip(), ty.strip()))
+                                else:
+                                    vf.append((pos, str(pos), r2.strip()))
+                            variants.append((vname, vnamed, vf))
+                        self.rust_enum(mod, item, variants, other_excl=self.catch_all_exclusions(mod, item, variants))
+                except Exception:
+                    continue
+        self.rust_table = []
+        for mod, name, item, disp in self.root_items():
+            if item.kind != "type" and (mod, name) not in self.done_rust and (mod, name) not in HAND_RUST:
+                continue
+            rust = self.rust_path(mod, name) + ("<" + ", ".join("'_" if g[0] == "life" else "1" for g in item.generics) + ">" if item.generics else "")
+            self.rust_table.append((disp, rust))
+
+    def catch_all_exclusions(self, mod, item, variants):
+        """for a hand-written sum whose decoder has a catch-all arm bound to the last variant (its first field being
+        the variant number): the numbers of the listed arms, which the generator must not put into that field"""
+        impls = self.hand_impl[mod].get(item.name, {})
+        dec = impls.get("Decode")
+        if not dec or not variants or variants[-1][1] is not False or not variants[-1][2]:
+            return None
+        if variants[-1][2][0][2].strip() not in ("u8", "u16"):
+            return None
+        m = re.search(r"match\s+variant\s*\{", dec)
+        if not m:
+            return None
+        k = dec.index("{", m.end() - 1)
+        arms = split_top(dec[k + 1:match_close(dec, k)])
+        nums = [int(a.split("=>")[0].strip()) for a in arms if re.fullmatch(r"\d+", a.split("=>")[0].strip())]
+        catch = any(re.fullmatch(r"[a-z]\w*", a.split("=>")[0].strip()) and (item.name + "::" + variants[-1][0]) in a for a in arms if "=>" in a)
+        return sorted(nums) if catch else None
+
+    def use_snapshot(self, lname):
+        """define `lname` (and what it refers to) from the pinned snapshot of the last complete translation"""
+        if lname in self.snap_used or any(n == lname for n, _ in self.defs):
+            return
+        ent = self.snapshot["defs"].get(lname)
+        if ent is None:
+            raise Unknown(f"no pinned schema for {lname}")
+        self.snap_used.add(lname)
+        for dep in re.findall(r"\b(?:crate|alonzo|babbage|conway|byron)_\w+\b", ent["term"]):
+            if dep != lname:
+                self.use_snapshot(dep)
+        self.defs.append((lname, ent["term"]))
+
+    def run(self, claimed):
+        self.gen_rust_all()
+        for mod, name, item, disp in self.root_items():
+            rust = self.rust_path(mod, name) + ("<" + ", ".join("'_" if g[0] == "life" else "1" for g in item.generics) + ">" if item.generics else "")
+            try:
+                ref, nr = self.instance(mod, item, [], [])
+                self.table.append((disp, ref, rust))
+            except Unknown as e:
+                self.progress = []
+                (self.unknowns if disp in claimed else self.skipped).append(f"{disp}: {e}")
+            except Exception as e:  # malformed source: fail closed
+                self.progress = []
+                (self.unknowns if disp in claimed else self.skipped).append(f"{disp}: {type(e).__name__} {e}")
         self.unknowns += self.soft
+        # dispatch order = generation order of the stream: small types first, so that the first case that shows a
+        # broken codec is (close to) the smallest value that does
+        terms = dict(self.defs)
+        size_memo = {}
+
+        def closure(n, seen):
+            if n in seen or n not in terms:
+                return
+            seen.add(n)
+            for dep in re.findall(r"\b(?:crate|alonzo|babbage|conway|byron)_\w+\b", terms[n]):
+                closure(dep, seen)
+
+        def size(disp):
+            ref = next((r for d, r, _ in self.table if d == disp), None)
+            if ref is None:
+                return 10 ** 6
+            names = re.findall(r"\b(?:crate|alonzo|babbage|conway|byron)_\w+\b", ref) or []
+            if ref.startswith(".ref"):
+                names = [self.envinfo[self.env[int(ref.split()[1])]][1]]
+            seen = set()
+            for n in names:
+                closure(n, seen)
+            return sum(len(terms[n]) for n in seen) + len(ref)
+
+        order = {d: (size(d), i) for i, (d, _) in enumerate(self.rust_table)}
+        self.rust_table.sort(key=lambda e: order[e[0]])
         have = {t[0] for t in self.table}
         for c in sorted(claimed):
             if c not in have and not any(u.startswith(c + ":") for u in self.unknowns):
@@ -977,12 +1136,12 @@ class Translator:
         R.append("")
         R.append("/// name in the line protocol -> the Rust type, applied to the per-type operations")
         R.append("macro_rules! schema_dispatch { ($name:expr, $op:ident, $($arg:expr),*) => { match $name {")
-        for d, _, rust in self.table:
+        for d, rust in self.rust_table:
             R.append(f"    \"{d}\" => $op!({rust}, $($arg),*),")
         R.append("    _ => None,")
         R.append("} } }")
         R.append("pub(crate) use schema_dispatch;")
-        R.append("pub const TYPE_NAMES: &[&str] = &[" + ", ".join(f"\"{d}\"" for d, _, _ in self.table) + "];")
+        R.append("pub const TYPE_NAMES: &[&str] = &[" + ", ".join(f"\"{d}\"" for d, _ in self.rust_table) + "];")
         return "\n".join(R) + "\n"
 
 
@@ -1012,7 +1171,28 @@ def translate(repo, lean_dir):
     return tr
 
 
+def pin(repo):
+    """write lib/derive_snapshot.json from a complete translation of `repo` (run deliberately, like updating
+    derive_claimed.txt, when pallas legitimately changes)"""
+    import json
+    tr = Translator(repo)
+    tr.snapshot = {"defs": {}}
+    tr.run(claimed_names())
+    if tr.unknowns:
+        raise SystemExit("not pinning: " + "; ".join(tr.unknowns))
+    nr = {ref[0]: ref[1] for ref in tr.memo.values()}
+    snap = {"defs": {n: {"term": t, "noraw": bool(nr.get(n, False))} for n, t in tr.defs if not n.endswith("_body")}}
+    p = os.path.join(os.path.dirname(os.path.abspath(__file__)), "derive_snapshot.json")
+    with open(p, "w") as f:
+        json.dump(snap, f, indent=0, sort_keys=True)
+        f.write("\n")
+    print("pinned", len(snap["defs"]), "schemas")
+
+
 if __name__ == "__main__":
+    if len(sys.argv) > 2 and sys.argv[1] == "--pin":
+        pin(sys.argv[2])
+        sys.exit(0)
     repo = sys.argv[1] if len(sys.argv) > 1 else os.environ.get("PV_REPO", "/repo")
     root = os.path.dirname(os.path.dirname(os.path.abspath(__file__)))
     tr = translate(repo, os.path.join(root, "lean"))
